@@ -20,7 +20,8 @@ RULE = ('generated projects and real packages x {one root, several roots} x {wit
         'and into a fresh vs. an already populated output directory, under varied sidebar/theme/member-order options; build time fixed by --buildtime or SOURCE_DATE_EPOCH (0, 1, 86399, 2020, 2100) and required to be the one the pages carry. All '
         'output trees of one project must have one digest. Distinct: (project, configuration); non-trivial: project has >=2 '
         'modules.')
-ASSUME = ['the order of the roots on the command line is part of the input and is not varied', 'intersphinx is off; no --html-viewsource-base']
+ASSUME = ['the order of the roots on the command line is part of the input and is not varied', 'intersphinx is off; no --html-viewsource-base',
+          'the time zone of the machine (TZ) is varied between runs as well: with the build time given, it is not an input']
 DECIDING = {'runs': 60, 'buildtime_checks': 60, 'configurations': 6, 'projects': 8, 'files_compared': 1000, 'multi_root_projects': 2, 'guessed_name_projects': 2}
 CPU_S = 1200
 SHIM = str(Path(__file__).resolve().parent.parent / 'ref' / 'run_pydoctor_shim.py')
@@ -61,9 +62,14 @@ def _digest_tree(d: str) -> Tuple[str, Dict[str, str]]:
 EPOCHS = [1577836800, 0, 86399, 4102444800, 1]
 
 
-def _run(argv: List[str], outdir: str, hashseed: str, listing: str, epoch: Any) -> Tuple[int, str]:
-    env = {k: v for k, v in os.environ.items() if k not in ('PYTHONHASHSEED', 'SOURCE_DATE_EPOCH')}
+TZS = ['UTC0', 'EAST-12', 'WEST+11', 'EST5EDT']
+
+
+def _run(argv: List[str], outdir: str, hashseed: str, listing: str, epoch: Any, tz: str = 'UTC0') -> Tuple[int, str]:
+    env = {k: v for k, v in os.environ.items() if k not in ('PYTHONHASHSEED', 'SOURCE_DATE_EPOCH', 'TZ')}
     env['PYTHONHASHSEED'] = hashseed
+    # the build time is given (an epoch is a point in time, --buildtime a literal text): the machine's time zone is not an input
+    env['TZ'] = tz
     env['VF_LISTING'] = listing
     env['PYTHONPATH'] = core.repo_dir()
     env['PYTHONDONTWRITEBYTECODE'] = '1'
@@ -93,7 +99,7 @@ def _judge(res: core.Res, label: str, roots: List[str], extra: List[str], nconfi
             out = os.path.join(base, f'out{ci}')
             if reuse == 'reused':
                 rc0, err0 = _run(argv, out, '0', 'normal', epoch)      # the previous run's result is already there
-            rc, err = _run(argv, out, hs, listing, epoch)
+            rc, err = _run(argv, out, hs, listing, epoch, TZS[ci % len(TZS)])
             res.c('runs')
             res.setadd('configurations', f'{hs}/{listing}/{reuse}')
             if rc not in (0, 2, 3):
@@ -161,6 +167,9 @@ DIRECTED = {
     'dpk/queue.py': 'def qb():\n    """qb"""\nclass Same:\n    pass\n',
     'dpk/users.py': 'from dpk._impl import *\nfrom dpk import *\nclass U(Delta, Theta):\n    """See L{alpha} and L{Epsilon}."""\n    x = {1, 2, 3}\n    y = frozenset(["a", "b"])\n',
     'other.py': 'from dpk import Delta\nclass O(Delta):\n    pass\n',
+    # members that tie under either member order (one source line; names differing only in case), inherited over two levels
+    'dpk/ties.py': 'class Many:\n    a = b = c = d = e = f = 0\n    """one line, several names"""\n    Aa = 1; aA = 2; AA = 3; aa = 4\n    def Mm(self): pass\n    def mM(self): pass\n'
+                   'class Derived(Many):\n    """Inherits all of them."""\nclass Deeper(Derived):\n    g = h = i = 0\nx = y = z = 1\n',
     # several interfaces that declare the same members, implemented by one base class and inherited: which interface a member is
     # attributed to ("from IXxx") must not depend on the hash seed
     'dpk/zi.py': 'from zope.interface import Interface, implementer, Attribute\n' +
@@ -183,6 +192,8 @@ def run_case(case: Dict[str, Any]) -> core.Res:
             res.c('multi_root_projects')
             res.c('guessed_name_projects')
             _judge(res, 'directed', [str(base / 'dpk'), str(base / 'other.py')], [], case['configs'], {'project': 'directed', 'sources': DIRECTED}, epoch=True)
+            _judge(res, 'directed/source-order', [str(base / 'dpk'), str(base / 'other.py')], ['--cls-member-order=source', '--mod-member-order=source'], case['configs'],
+                   {'project': 'directed', 'args': ['--cls-member-order=source', '--mod-member-order=source'], 'sources': DIRECTED}, epoch=1577836800)
         finally:
             shutil.rmtree(base, ignore_errors=True)
         res.sample({'directed': sorted(DIRECTED)})
